@@ -74,6 +74,9 @@ type Cfg struct {
 	// same time); WBase offsets the writer ids so that siblings' payloads are distinguishable.
 	Factory netty.ChannelFactory
 	WBase   int
+	// ScratchCap: every writer's scratch buffer has this capacity (0 = the largest payload size): an application buffer
+	// whose capacity happens to be a pool size class, of which the writes are sub-slices (also empty ones).
+	ScratchCap int
 }
 
 func (c Cfg) String() string {
@@ -324,6 +327,9 @@ func writer(rig *mon.Rig, cfg Cfg, w int, rng *rand.Rand) []WriteRec {
 		if s > maxSize {
 			maxSize = s
 		}
+	}
+	if cfg.ScratchCap > maxSize {
+		maxSize = cfg.ScratchCap
 	}
 	buf := make([]byte, maxSize)
 	ctx := context.Background()
